@@ -42,6 +42,11 @@ def run(ctx: Ctx, tier: str) -> Result:
         res.analysed["functions reachable from %s" % entry.name] = len(reach)
         for s in g.sites(entry):
             esc = g.site_escapes(s, entry)
+            if not esc and s.tokens and g.catching_try(s.node, entry, "BaseException") is None:
+                # anything running below the callback - user expressions, __str__ of program values, plugins, or an
+                # asynchronous KeyboardInterrupt - can raise a BaseException that is not an Exception
+                esc = {"BaseException": ((entry.qname, entry.loc(s.node), "only guarded for Exception: a BaseException raised below (expression, plugin, "
+                                          "value rendering) is not contained"),)}
             if not esc:
                 res.ok("C01.R1", {"site": norm(s.node)[:100], "at": entry.loc(s.node), "tokens": sorted(s.tokens)})
                 continue
